@@ -22,6 +22,7 @@ fn dispatch(ctx: &Ctx) {
         "C13" => vcore::c13::run(ctx),
         "C14" => vcore::c14::run(ctx),
         "C15" => vcore::c15::run(ctx),
+        "C16" => vcore::c16::run(ctx),
         "C18" => vcore::c18::run(ctx),
         "C19" => vcore::c19::run(ctx),
         p => {
